@@ -55,8 +55,22 @@ func restrict(files map[string]string, req *ir.Request, name string, plugin stri
 		return out
 	}
 	base := strings.TrimSuffix(name[strings.LastIndex(name, "/")+1:], ".proto")
+	// the directory a plugin writes the file's outputs to: the Go import path, or the proto file's
+	// own directory (paths=source_relative); two proto files may share their base name
+	dirs := map[string]bool{f.GoImportPath(): true, strings.TrimSuffix(name, name[strings.LastIndex(name, "/")+1:]): true}
+	if i := strings.LastIndex(name, "/"); i >= 0 {
+		dirs[name[:i]] = true
+	} else {
+		dirs[""] = true
+	}
 	for n, c := range files {
-		fn := n[strings.LastIndex(n, "/")+1:]
+		dir, fn := "", n
+		if i := strings.LastIndex(n, "/"); i >= 0 {
+			dir, fn = n[:i], n[i+1:]
+		}
+		if !dirs[dir] {
+			continue
+		}
 		if strings.HasPrefix(fn, base+"_") || strings.HasPrefix(fn, base+".") {
 			out[n] = c
 		}
@@ -120,6 +134,22 @@ func sharedAcrossServices(idx int) *ir.Request {
 				{Name: "Put", Input: Z + "FlatNullZ", Output: Z + "PlainStamps", Config: &ir.HTTPConfig{Path: "/put", Method: "PUT"}}}},
 		}}
 	return &ir.Request{Files: []*ir.File{zoo, feed}, Generate: []string{zoo.Name, feed.Name}}
+}
+
+// sameServiceNameTwice: do two generated files declare a service with the same short name?
+func sameServiceNameTwice(req *ir.Request) bool {
+	seen := map[string]string{}
+	for _, g := range req.Generate {
+		if f := req.FileByName(g); f != nil {
+			for _, s := range f.Services {
+				if o, ok := seen[s.Name]; ok && o != g {
+					return true
+				}
+				seen[s.Name] = g
+			}
+		}
+	}
+	return false
 }
 
 // orderSensitive: shapes whose emission order depends on a sorted or discovery-ordered collection:
@@ -186,6 +216,14 @@ func C15(c *Ctx) error {
 	// a 50/50 order flip survives r identical runs with probability 2^-(r-1): repeat these often
 	bases = append(bases, base{orderSensitive(9000), false, c.N(14, 24)})
 	bases = append(bases, base{sharedAcrossServices(9001), true, 0})
+	// two versions of one API: every name coincides, every annotation differs (with and without the
+	// mock option of go-http; the other plugins refuse that parameter the same way every time)
+	for _, same := range []bool{true, false} {
+		bases = append(bases, base{gen.VersionedPair(same), true, 0})
+		vm := gen.VersionedPair(same)
+		vm.Parameter = "generate_mock=true"
+		bases = append(bases, base{vm, true, 0})
+	}
 	type cmpJob struct {
 		b       base
 		plugin  string
@@ -344,6 +382,11 @@ func C15(c *Ctx) error {
 			predicted := key == "generated_alone" && j.plugin == plug.GoHTTP && strings.Contains(diff, "_unwrap.pb.go")
 			if predicted {
 				cls = "generated_alone:go-http:cross_file_unwrap"
+			}
+			// the OpenAPI plugin names a document after the service's SHORT name: two generated files
+			// that both declare a service of that name write the same output file
+			if j.plugin == plug.OpenAPI && (key == "generated_alone" || key == "file_to_generate_permuted") && sameServiceNameTwice(j.b.req) {
+				cls, predicted = key+":openapiv3:service_name_in_two_files", true
 			}
 			res.Divergence(cls, fmt.Sprintf("%s: output for %s differs under variation %s", j.plugin, diff, j.variant), predicted, replay)
 		} else {
